@@ -104,7 +104,7 @@ def planeroute(run, fx):
     else:
         run.violated('PLANEROUTE', 'DirectCmap routes', d.where(), 'DirectCmap answers from %s, expected %s' % (sorted(routes), sorted(want)))
     # --- CachedCmap: the two fill passes
-    c = fx.one('graphite2::CachedCmap::CachedCmap')
+    c = fx.inl(fx.one('graphite2::CachedCmap::CachedCmap'))      # wrappers around the fills that the pinned tree does not know are expanded in place
     fills = [e for e in calls_in(c) if (e.get('fq') or '') == 'cache_subtable']
     got = set()
     for e in fills:
@@ -113,7 +113,19 @@ def planeroute(run, fx):
         limit = c.strip_all_casts(e['args'][-1]).get('v')
         tbl = c.render(c.N(e['args'][1]))
         fs = dom.facts_at(c, e['i'])
-        guarded = any(f[0] == tbl and f[1] == '!=' for f in fs)
+        # the sub-table pointer may have been handed on through a by-value parameter of an (inlined) wrapper: any spelling of it counts
+        tbls = {tbl, c.render(c.deref(e['args'][1])), c.render(c.N(e['args'][1]), resolve=True)}
+        a_ = c.strip_all_casts(e['args'][1])
+        for _r in range(3):
+            if a_['k'] == 'DeclRefExpr' and a_.get('vid') is not None:
+                ds_ = [dd for _, st_ in c.elements() if st_['k'] == 'DeclStmt' for dd in st_['decls'] if dd.get('vid') == a_['vid'] and dd.get('init') is not None]
+                as_ = [u for _, u in c.elements() if u['k'] == 'BinaryOperator' and u['op'] == '=' and c.strip(u['c'][0]).get('vid') == a_['vid']]
+                src_ = [dd['init'] for dd in ds_] + [u['c'][1] for u in as_]
+                if len(src_) != 1:
+                    break
+                a_ = c.strip_all_casts(src_[0])
+                tbls.add(c.render(a_))
+        guarded = any(f[0] in tbls and f[1] == '!=' for f in fs)
         got.add((fmt, start, limit, tbl, guarded))
         inst = 'CachedCmap fill format %d' % fmt
         wantrow = (12, 0xFFFF, 0x10FFFF) if fmt == 12 else (4, 0, 0xFFFF)
